@@ -142,17 +142,29 @@ def run_reader(target, cfg, noise, suffix, sent, spec, ctx, case) -> bool:
 def run_protocol(pclass_name, cfg, noise, suffix, sent_payloads, spec, ctx, case) -> bool:
     from han import meter_connection
 
+    from vf.mon import vloop
+
     _ensure_loop()
     q: asyncio.Queue = asyncio.Queue()
     cands = [hdlc_mon.new_reader(cfg), p1_mon.new_reader()]
     proto = getattr(meter_connection, pclass_name)(q, cands)
     raised = False
-    for ch in splits.chunks(noise + suffix, spec):
-        try:
-            proto.data_received(ch)
-        except Exception as ex:
-            record(ctx, f"{pclass_name}.data_received", ex, case)
-            raised = True
+    # the wall clock the module sees is frozen at one of several calendar dates (month / year ends, leap day, DST switches)
+    class _Frozen:
+        vtime = 0.0
+    saved = meter_connection.datetime
+    epoch = vloop.EPOCHS[len(noise) % len(vloop.EPOCHS)]
+    meter_connection.datetime = vloop.ClockShim(_Frozen(), epoch)
+    ctx.seen("frozen_clock_dates", epoch.date().isoformat())
+    try:
+        for ch in splits.chunks(noise + suffix, spec):
+            try:
+                proto.data_received(ch)
+            except Exception as ex:
+                record(ctx, f"{pclass_name}.data_received", ex, case)
+                raised = True
+    finally:
+        meter_connection.datetime = saved
     items = []
     while not q.empty():
         items.append(q.get_nowait())
